@@ -143,13 +143,17 @@ def c12_r2(ctx):
             ctx.viol((f.id, "sort-without-goal"), "the goal-restricted sort can start although the goal is no rule's target", f.where(bb, idx))
             continue
         # the start indices come from that lookup
-        c = so[0]
         pay = f._call_origins(g, (("variant", "Some"), ("field", 0)), frozenset())
-        io = f.origins_of_operand(c.args[1])
-        so_ = f.origins_of_operand(c.args[2])
-        if io != {p + (("field", 0),) for p in pay} or so_ != {p + (("field", 1),) for p in pay}:
-            ctx.viol((f.id, "sort-start-foreign"), "the sort does not start at the goal's own rule / target index", c.where)
-        else:
+        foreign = False
+        for c in so:
+            # (every search the goal-restricted sort starts: a second one, from a rule that was
+            #  not looked up for the goal, puts rules outside the goal's scope into the plan)
+            io = f.origins_of_operand(c.args[1])
+            so_ = f.origins_of_operand(c.args[2])
+            if io != {p + (("field", 0),) for p in pay} or so_ != {p + (("field", 1),) for p in pay}:
+                foreign = True
+                ctx.viol((f.id, "sort-start-foreign"), "the sort does not start at the goal's own rule / target index", c.where)
+        if not foreign:
             ctx.ok()
         r = f.reach([x for (_, x) in none], avoid_blocks=[bb])
         if any(b in r for b in f.return_blocks):
@@ -311,6 +315,15 @@ def c12_r4(ctx):
         if all(("field", "sources") in x for x in lp["iter"]) and lp["iter"]:
             if any(st[0] == "truncate" for o in lp["iter"] for st in o[1:]) or not f.every_iteration_calls(lp, [p.bb for p in pushes]) or f.loop_exits(lp):
                 ctx.viol((f.id, "source-unbound"), "a source of a rule can be left without an index (the rule would not wait for it)", f.where(lp["header"]))
+    # ... and in the order of the sources: one pass over the (sorted) sources fills the list, so
+    # that position k of the list belongs to source k whatever kind of source it is
+    inner_of = {}
+    for pu in pushes:
+        lps = [lp for lp in f.loops() if pu.bb in lp["body"]]
+        if lps:
+            inner_of[pu.bb] = min(lps, key=lambda l: len(l["body"]))["header"]
+    if len(set(inner_of.values())) > 1:
+        ctx.viol((f.id, "source-order"), "the indices of a rule's sources are gathered in more than one pass (by kind of source): their order, in which the sources' hashes are combined, then depends on which sources are produced by rules - the same source bytes give another sources hash once a rule for one of them is added or removed", pushes[0].where)
     # leaf numbering: leaf i is the i-th element of the ordered leaf set, counter starts at 0 and steps by 1
     # (checked structurally: the value inserted into the leaf map is a counter incremented once per iteration)
 
@@ -620,6 +633,51 @@ def c12_r9(ctx):
         else:
             ctx.viol((f.id, "frame-taken-without-lookup"), "a frame is taken out of the frame table at a position that is not the looked-up owner of a source (it derives from %s): a rule the goal does not depend on is pulled into the plan, and ruler then moves and rebuilds its targets" % sorted(map(fmt_origin, ao))[:1], c.where)
     ctx.need(n, "frames taken out of the table in the search")
+
+
+@rule("C12.R11", floor=1)
+def c12_r11(ctx):
+    """A rule's position is not consulted before it has one: `final_index` starts as a
+    placeholder (0) and becomes the rule's position only when its frame is finished, so during
+    a search it is only ever stored, never read - a test like `final_index < finished so far`
+    takes every frame that was taken but not yet finished for a finished one, and with it skips
+    the self-dependence and cycle verdicts (the plan then contains a cycle) or the lifting of a
+    waiting sibling (a rule is planned before its producer)."""
+    fs = [f for f in sort_fns(ctx.P) if f.constructs(ERR, "CircularDependence")]
+    ctx.need(len(fs) == 1, "the DFS function")
+    f = fs[0]
+    ctx.saw(f)
+
+    def reads(x, out):
+        if isinstance(x, dict):
+            if isinstance(x.get("proj"), list) and any(e.get("k") == "field" and e.get("name") == "final_index" for e in x["proj"]):
+                out.append(x)
+            for v in x.values():
+                reads(v, out)
+        elif isinstance(x, list):
+            for v in x:
+                reads(v, out)
+    stores = 0
+    for b in f.blocks:
+        if b["cleanup"] or b["i"] not in f.live:
+            continue
+        for i, st in enumerate(b["stmts"]):
+            got = []
+            if st["k"] == "assign":
+                pr = st["place"]["proj"]
+                if pr and pr[-1].get("k") == "field" and pr[-1].get("name") == "final_index":
+                    stores += 1
+                    ctx.inst("final_index stored", f.where(b["i"], i))
+                    ctx.ok()
+                reads(st["rv"], got)
+            if got:
+                ctx.viol((f.id, "position-read-during-search"), "final_index is read while a search is running: until a frame is finished the field holds the placeholder 0, which is also a real position", f.where(b["i"], i))
+        got = []
+        t = b["term"]
+        reads({k: v for k, v in t.items() if k != "dest"}, got)
+        if got:
+            ctx.viol((f.id, "position-read-during-search"), "final_index is read while a search is running: until a frame is finished the field holds the placeholder 0, which is also a real position", f.where(b["i"]))
+    ctx.need(stores, "the store into final_index")
 
 
 @rule("C12.R10", floor=1)
